@@ -52,6 +52,7 @@ def from_tlc(h, rnd=None):
     rcpts = 0             # H_Receipt calls since head_step
     reobs = None          # current Reobserve step while between R_Head and R_Receipt
     after_rhead = False
+    fresh = False         # a log was pushed since the last top-level head step (so something is probably pending)
     intake = None         # current PushLog step while its block lookup has not been answered (LogReceived .. L_BlockTime)
     for x in h["hist"]:
         ev, a = x["ev"], x["a"]
@@ -75,15 +76,19 @@ def from_tlc(h, rnd=None):
             else:
                 steps.append(st)
                 if ev == "NewHead":
-                    head_step, rcpts = st, 0
+                    head_step, rcpts, fresh = st, 0, False
         elif ev == "PushLog":
+            fresh = True
             intake = {"ev": "PushLog", "a": dict(a)}
             if rnd.random() < 0.3:
                 intake["a"]["hold"] = True      # held even if nothing is scripted for the gap
             steps.append(intake)
         elif ev in ("L_BlockTime", "L_Insert"):
             intake = None
-        elif ev == "Restart" and rnd.random() < 0.2:      # every restart costs the supervisor's real back-off (0.25..0.75 s)
+        elif ev == "Restart":
+            # every restart costs the supervisor's real back-off (0.25..0.75 s): keep those with something pending
+            if not (fresh and rnd.random() < 0.6):
+                continue
             steps.append({"ev": "Restart", "a": {"via": rnd.choice(["poll", "ltime"]), "text": rnd.choice(ERR_TEXTS)}})
         elif ev == "Reobserve":
             reobs = {"ev": "Reobserve", "a": a}
@@ -150,7 +155,8 @@ class Gen:
                                                       "text": r.choice(ERR_TEXTS)}})
             elif x < 0.92 and S["pend"]:
                 self.error_at_depth(S)
-            elif x < 0.923:
+            elif x < 0.96 and S.get("fresh"):
+                S["fresh"] = False
                 S["steps"].append({"ev": "Restart", "a": {"via": r.choice(["poll", "ltime"]), "text": r.choice(ERR_TEXTS)}})
             else:
                 self.reobserve(S)
@@ -198,6 +204,8 @@ class Gen:
                 lg = logs[i - 1]
                 if lg["core"] and lg["topic"]:
                     S["pend"].append((tx, nblk, lg["cl"]))
+                    if status == 1 and nblk + self.conf(S, lg["cl"]) > self.tag_head(S):
+                        S["fresh"] = True
 
     def held_intake(self, S):
         """The log hand-over is not atomic: the chain moves (0..3 heads, possibly far) after the log has arrived and
@@ -236,8 +244,15 @@ class Gen:
         transaction stayed in its block has to come out."""
         r = self.r
         for _ in range(r.choice([1, 1, 2])):
-            self.mine_and_push(S)
-        if r.random() < 0.5:
+            S["ntx"] += 1
+            tx = "x%d" % S["ntx"]
+            S["seq"] += 1
+            lg = {"core": True, "topic": True, "sender": r.choice(["s1", "s2"]), "seq": S["seq"], "cl": r.choice([1, 2, 5, 15, 200])}
+            S["txs"][tx], S["mined"][tx] = [lg], S["latest"]
+            S["steps"].append({"ev": "Mine", "a": {"tx": tx, "n": S["latest"], "status": 1, "logs": [lg]}})
+            S["steps"].append({"ev": "PushLog", "a": {"tx": tx, "i": 1}})
+            S["pend"].append((tx, S["latest"], lg["cl"]))
+        if not S["fin"] and r.random() < 0.5:
             self.head(S, force=1)
         S["steps"].append({"ev": "Restart", "a": {"via": r.choice(["poll", "ltime"]), "text": r.choice(ERR_TEXTS)}})
         for _ in range(r.choice([0, 1, 2])):
@@ -250,6 +265,7 @@ class Gen:
 
     def head(self, S, force=None):
         r = self.r
+        S["fresh"] = False
         cur = self.tag_head(S)
         j = None
         if force is not None:
@@ -598,7 +614,7 @@ def signature(rej, line, prev):
         return "stall/%s" % a.get("what", "?")
     if ev == "RunExit":
         # Watcher.Run returned although the scripted node was healthy: class = the error text up to its first detail
-        return "run-exit/%s" % _slug(str(a.get("err", "")).split(":")[0], 50)
+        return "run-exit/%s" % _slug(re.sub(r"\d+", "N", str(a.get("err", "")).split(":")[0]), 50)
     if ev == "Crash":
         msg, frames = crash_frames("panic: %s\n\n%s" % (a.get("panic", ""), a.get("stack", "")))
         fn = "?"
